@@ -18,6 +18,7 @@ import (
 	"github.com/douban/gobeansdb/config"
 	"github.com/douban/gobeansdb/loghub"
 	"github.com/douban/gobeansdb/utils"
+	"github.com/douban/gobeansdb/verifhook"
 )
 
 const (
@@ -232,6 +233,7 @@ func (bkt *Bucket) open(bucketID int, home string) (err error) {
 		for i := 0; i < bkt.TreeID.Chunk; i++ {
 			bkt.checkHintWithData(i)
 		}
+		verifhook.Point("bkt.open.bgdone", bkt.ID)
 	}()
 
 	if bkt.checkForDump(Conf.TreeDump) {
@@ -397,6 +399,7 @@ func (bkt *Bucket) set(ki *KeyInfo, v *Payload) error {
 	if err != nil {
 		return err
 	}
+	verifhook.Point("bkt.set.appended", bkt.ID, ki.StringKey, pos)
 	bkt.htree.set(ki, &v.Meta, pos)
 	bkt.hints.set(ki, &v.Meta, pos, v.RecSize, "set")
 	return nil
@@ -605,6 +608,8 @@ func (bkt *Bucket) loadGCHistroy() (err error) {
 func (bkt *Bucket) dumpGCHistroy() {
 
 	p := bkt.getGCHistoryPath()
+	verifhook.Point("fs.rewrite.before", p, 0)
+	defer verifhook.Point("fs.rewrite.after", p, 0)
 	fd, err := os.OpenFile(p, os.O_CREATE|os.O_WRONLY|os.O_TRUNC, 0644)
 	if err != nil {
 		logger.Errorf("%v", err)
